@@ -60,6 +60,10 @@ EXTREMES = [0, 1, 2, 0x7fffffff, 0x80000000, 0xffffffff]
 
 # -- field templates ----------------------------------------------------------------
 
+KEXINIT_LISTS = [b'curve25519-sha256', b'ssh-ed25519', b'aes128-ctr',
+                 b'aes128-ctr', b'hmac-sha2-256', b'hmac-sha2-256', b'none',
+                 b'none', b'', b'']
+
 def templates(sender, chan_them, chan_ours):
     """Message templates a hostile `sender` may use.  chan_them = channel id
        on the asyncssh side (recipient field), chan_ours = our own id."""
@@ -100,6 +104,17 @@ def templates(sender, chan_them, chan_ours):
         (99, [(U, chan_them)]), (100, [(U, chan_them)]),
         (91, [(U, chan_them), (U, chan_ours), (U, 1 << 20), (U, 32768)]),
         (92, [(U, chan_them), (U, 2), (S, b'no'), (S, b'')]),
+        # a re-key request: every name-list is a string field of its own
+        (20, [('raw', b'C' * 16)] + [(S, v) for v in KEXINIT_LISTS] +
+         [(B, 0), (U, 0)]),
+        (20, [('raw', b'C' * 16)] + [(S, v) for v in KEXINIT_LISTS] +
+         [(B, 0), (U, 0)]),
+        (21, []),
+        (30, [(S, b'e' * 32)]),
+        (31, [(S, string(b'ssh-ed25519') + string(b'k' * 32)),
+              (S, b'f' * 32),
+              (S, string(b'ssh-ed25519') + string(b's' * 64))]),
+        (34, [(U, 1024), (U, 2048), (U, 8192)]),
     ]
 
     if sender == 'client':
@@ -178,6 +193,8 @@ def render(fields, muts, rng):
             out += bytes([val if mut is None else (mut % 256)])
         elif kind == 'names':
             out += namelist(val)
+        elif kind == 'raw':
+            out += val
 
     return out
 
@@ -200,7 +217,8 @@ def gen_plan(rng):
         for _ in range(rng.between(1, 8)):
             k = rng.weighted([('version_ok', 20), ('garbage', 15),
                               ('line', 15), ('lines', 10), ('nul', 5),
-                              ('hugever', 8), ('pkt', 25), ('close', 5)])
+                              ('hugever', 8), ('pkt', 25), ('close', 5),
+                              ('kexinit', 20)])
 
             if k == 'garbage':
                 ops.append([k, rng.choice([1, 7, 100, 5000, 70000])])
@@ -213,6 +231,10 @@ def gen_plan(rng):
                 ops.append([k, rng.choice([1, 300])])
             elif k == 'hugever':
                 ops.append([k, rng.choice([200, 255, 256, 300, 100000])])
+            elif k == 'kexinit':
+                # [which name-list (10 = none), how it is spoiled, seed]
+                ops.append([k, rng.below(11), rng.below(6),
+                            rng.below(1 << 16)])
             elif k == 'pkt':
                 ops.append([k, rng.choice(EXTREMES + [5, 12, 28, 35000,
                                                        262144]),
@@ -239,7 +261,7 @@ def gen_plan(rng):
         muts = {}
 
         for _m in range(rng.weighted([(0, 2), (1, 5), (2, 2)])):
-            muts[str(rng.below(8))] = rng.below(1 << 16)
+            muts[str(rng.below(rng.choice([8, 8, 14])))] = rng.below(1 << 16)
 
         msgs.append({'tmpl': tmpl, 'muts': muts,
                      'shape': rng.weighted([('asis', 6), ('truncate', 2),
@@ -261,11 +283,11 @@ def valid_plan(plan):
         if plan['mode'] == 'bytes':
             for op in plan['ops']:
                 if op[0] not in ('version_ok', 'garbage', 'line', 'lines',
-                                 'nul', 'hugever', 'pkt', 'close'):
+                                 'nul', 'hugever', 'pkt', 'close', 'kexinit'):
                     return False
 
                 need = {'garbage': 2, 'line': 2, 'lines': 3, 'nul': 2,
-                        'hugever': 2, 'pkt': 4}.get(op[0], 1)
+                        'hugever': 2, 'pkt': 4, 'kexinit': 4}.get(op[0], 1)
 
                 if len(op) != need or any(not isinstance(x, int) or x < 0 or
                                           x > 1 << 32 for x in op[1:]):
@@ -340,6 +362,27 @@ class RawPeer(asyncio.Protocol):
             elif k == 'pkt':
                 body = bytes([op[2]]) + self.rng.bytes(op[3])
                 self.write(u32(op[1]) + body)
+            elif k == 'kexinit':
+                # a correctly framed cleartext KEXINIT whose name-lists are
+                # what this endpoint supports, except one that is spoiled
+                lists = [b'curve25519-sha256,ecdh-sha2-nistp256',
+                         b'ssh-ed25519,rsa-sha2-256,ecdsa-sha2-nistp256',
+                         b'aes128-ctr', b'aes128-ctr', b'hmac-sha2-256',
+                         b'hmac-sha2-256', b'none', b'none', b'', b'']
+                r = Rng('kexinit:%d' % op[3])
+
+                if op[1] < 10:
+                    lists[op[1]] = [
+                        b'\xff\xfe-no-such@example.invalid', b'',
+                        r.bytes(20), b'a,' * 3000 + b'b', b',,,',
+                        b'no-such-algorithm'][op[2] % 6]
+
+                payload = bytes([20]) + r.bytes(16) + \
+                    b''.join(string(v) for v in lists) + bytes(5)
+                pad = 8 - (len(payload) + 5) % 8
+                pad += 8 if pad < 4 else 0
+                self.write(u32(len(payload) + pad + 1) + bytes([pad]) +
+                           payload + bytes(pad))
             else:
                 if self.transport is not None:
                     self.transport.close()
